@@ -2,7 +2,7 @@
    Only statements closed by [exact]; the lemmas live in Proofs/Reference.v.
    The regular expressions are Generated/Regexes.v (re-translated from
    registry/reference.go on every run). *)
-From Oras Require Import Base.Prelude Base.Regex Generated.GC20 Model.Reference Model.RefOps Proofs.Reference Proofs.RefOps Proofs.RefURL Proofs.RefGrammar.
+From Oras Require Import Base.Prelude Base.Regex Generated.GC20 Model.Reference Model.RefOps Proofs.Reference Proofs.RefOps Proofs.RefURL Proofs.RefGrammar Model.NetURL Proofs.NetURL.
 
 (* ParseReference accepts exactly the grammar (any registry predicate). *)
 Theorem C20_parse_iff_grammar :
@@ -239,3 +239,111 @@ Example C20_nonvacuous :
   parse (fun _ => true) (fun _ => true) (b "localhost:5000/hello/world:v1.0")
   = Some (mkRef (b "localhost:5000") (b "hello/world") (b "v1.0")).
 Proof. vm_compute. reflexivity. Qed.
+
+(* ---------- the registry check itself (Model/NetURL.v: net/url of go1.26.8) ---------- *)
+
+(* whatever ValidateRegistry accepts is a clean URL authority: non-empty, no control character,
+   space, '#', '%', '/', '?', '@' (no user-info), backslash -- for every behaviour of
+   netip.ParseAddr.  This discharges the hypothesis of C20_url_exact for the modelled validator. *)
+Theorem C20_registry_clean :
+  forall (ip6_ok : str -> bool) reg,
+    go_valid_registry ip6_ok reg = true -> reg_clean reg = true /\ contains c_slash reg = false.
+Proof. exact go_valid_registry_clean. Qed.
+Print Assumptions C20_registry_clean.
+
+(* registries without brackets (reg-name [":" port]) are characterised exactly *)
+Theorem C20_registry_regname_iff :
+  forall (ip6_ok : str -> bool) reg,
+    contains 91 reg = false ->
+    (go_valid_registry ip6_ok reg = true <->
+     reg <> [] /\ forallb hostcb reg = true /\
+     (forall i, last_index_of 58 reg = Some i -> forallb is_digit_c (skipn (S i) reg) = true)).
+Proof. exact registry_regname_iff. Qed.
+Print Assumptions C20_registry_regname_iff.
+
+(* the URL clauses with the modelled validator: no hypothesis about the registry left *)
+Theorem C20_url_exact_go :
+  forall (avail ip6_ok : str -> bool) plain s r,
+    parse avail (go_valid_registry ip6_ok) s = Some r -> r_reference r <> [] ->
+    url_is (url_manifest plain r) plain r (b "manifests") /\
+    url_is (url_blob plain r) plain r (b "blobs") /\
+    url_is (url_referrers plain r) plain r (b "referrers").
+Proof. exact url_exact_go. Qed.
+Print Assumptions C20_url_exact_go.
+
+Theorem C20_url_exact_noref_go :
+  forall (avail ip6_ok : str -> bool) plain s r,
+    parse avail (go_valid_registry ip6_ok) s = Some r ->
+    url_split (url_taglist plain r)
+    = Some (mkParts (scheme plain) (host_of (r_registry r)) (b "/v2/" ++ r_repository r ++ b "/tags/list") None None) /\
+    url_split (url_upload plain r)
+    = Some (mkParts (scheme plain) (host_of (r_registry r)) (b "/v2/" ++ r_repository r ++ b "/blobs/uploads/") None None).
+Proof. exact url_exact_noref_go. Qed.
+Print Assumptions C20_url_exact_noref_go.
+
+Theorem C20_op_requests_exact_paths_go :
+  forall (avail ip6_ok : str -> bool) op plain breg brepo s d reqs,
+    go_valid_registry ip6_ok breg = true -> valid_repository brepo = true -> valid_digest avail d = true ->
+    op_requests avail (go_valid_registry ip6_ok) op plain breg brepo s d = Some reqs ->
+    exists r, repo_parse avail (go_valid_registry ip6_ok) breg brepo s = Some r /\
+      Forall (fun mu => exists seg x,
+                (seg = b "manifests" \/ seg = b "blobs") /\ (x = r_reference r \/ x = d) /\
+                url_is (snd mu) plain (mkRef breg brepo x) seg) reqs.
+Proof. exact op_requests_exact_paths_go. Qed.
+Print Assumptions C20_op_requests_exact_paths_go.
+
+Example C20_registry_examples :
+  go_valid_registry (fun _ => true) (b "localhost:5000") = true /\
+  go_valid_registry (fun _ => true) (b "[::1]:5000") = true /\
+  go_valid_registry (fun _ => false) (b "[::1]:5000") = false /\
+  go_valid_registry (fun _ => true) (b "reg:") = true /\
+  go_valid_registry (fun _ => true) (b "u@h") = false /\ go_valid_registry (fun _ => true) (b "h?x") = false /\
+  go_valid_registry (fun _ => true) (b "a%41") = false /\ go_valid_registry (fun _ => true) (b "h:80:90") = true /\
+  go_valid_registry (fun _ => true) (b "[fe80::1%25en0]") = false /\ go_valid_registry (fun _ => true) (b "h:5a") = false /\
+  parse (fun _ => true) (go_valid_registry (fun _ => true)) (b "localhost:5000/hello/world:v1")
+  = Some (mkRef (b "localhost:5000") (b "hello/world") (b "v1")).
+Proof. vm_compute. repeat split. Qed.
+
+(* ---------- the two query-carrying URL builders ---------- *)
+
+(* url.QueryEscape is inverted by url.QueryUnescape (all byte strings) *)
+Theorem C20_query_escape_roundtrip :
+  forall s, Forall (fun c => (c < 256)%N) s -> query_unescape (query_escape s) = Some s.
+Proof. exact query_escape_roundtrip. Qed.
+Print Assumptions C20_query_escape_roundtrip.
+
+(* referrers URL with an artifactType filter: exact path; the query is exactly
+   artifactType=<escaped value>; the escaped value has no '&', '=', '#', '?' and decodes to the
+   requested artifact type; no fragment -- for EVERY artifact type string *)
+Theorem C20_url_referrers_at_exact :
+  forall (avail vr : str -> bool) plain r at_,
+    (forall reg, vr reg = true -> reg_clean reg = true) ->
+    wf_ref avail vr r -> r_reference r <> [] -> at_ <> [] -> Forall (fun c => (c < 256)%N) at_ ->
+    url_split (url_referrers_at plain r at_)
+    = Some (mkParts (scheme plain) (host_of (r_registry r))
+              (b "/v2/" ++ r_repository r ++ b "/referrers/" ++ r_reference r)
+              (Some (b "artifactType=" ++ query_escape at_)) None) /\
+    query_unescape (query_escape at_) = Some at_ /\
+    contains 38 (query_escape at_) = false /\ contains 61 (query_escape at_) = false /\
+    contains c_hash (query_escape at_) = false /\ contains c_qm (query_escape at_) = false.
+Proof. exact (fun avail vr plain r at_ H => url_referrers_at_exact avail vr H plain r at_). Qed.
+Print Assumptions C20_url_referrers_at_exact.
+
+(* blob mount URL (valid digest, valid source repository): exact path, query exactly
+   mount=<digest>&from=<repository>, and neither value needs escaping *)
+Theorem C20_url_mount_exact :
+  forall (avail vr : str -> bool) plain r d from,
+    (forall reg, vr reg = true -> reg_clean reg = true) ->
+    wf_ref avail vr r -> valid_digest avail d = true -> valid_repository from = true ->
+    url_split (url_mount plain r d from)
+    = Some (mkParts (scheme plain) (host_of (r_registry r)) (b "/v2/" ++ r_repository r ++ b "/blobs/uploads/")
+              (Some (b "mount=" ++ d ++ b "&from=" ++ from)) None) /\
+    Forall (fun x => contains x d = false /\ contains x from = false) [38; 61; c_hash; c_pct; 43; c_qm].
+Proof. exact (fun avail vr plain r d from H => url_mount_exact avail vr H plain r d from). Qed.
+Print Assumptions C20_url_mount_exact.
+
+Example C20_query_examples :
+  query_escape (b "a b&c=d/e#f?") = b "a+b%26c%3Dd%2Fe%23f%3F" /\
+  url_referrers_at false (mkRef (b "h") (b "a") (b "t")) (b "x/y z") = b "https://h/v2/a/referrers/t?artifactType=x%2Fy+z" /\
+  url_referrers_at false (mkRef (b "h") (b "a") (b "t")) [] = b "https://h/v2/a/referrers/t".
+Proof. vm_compute. repeat split. Qed.
